@@ -922,6 +922,18 @@ func child(seed uint64, from, to, maxProbes int) {
 		for v := 0; v < 8; v++ {
 			hx.Emit(runNested(v))
 		}
+		// worlds made by several module executions / a host freezing early: the value the
+		// last module's global closure captures must be frozen
+		for _, f := range graphs.MultiModules() {
+			m := f()
+			rec := map[string]any{"kind": "multi", "name": m.Name, "srcs": m.Srcs, "err": m.Err}
+			if m.Err == "" {
+				rec["call_accepted"] = m.Call(&starlark.Thread{Name: "later"}) == nil
+				rec["go_mutable"] = m.Mutable()
+				rec["seen"] = m.Target.String()
+			}
+			hx.Emit(rec)
+		}
 		hx.Flush()
 	}
 }
